@@ -280,6 +280,16 @@ def _check_failure(self, rec, err):
     site = rec["exc"].get("site")
     if site and site.get("i"):
         info = self.c.sites.get((site["i"], site["s"], site["j"]))
+        if info is not None and cname == "ExpressionError":
+            # C19: the deferred error is the one strict compilation reports: token and offset of the reached site
+            tok = getattr(err, "token", None)
+            src_text = info.get("encoded") or info["text"]
+            if tok is None or str(tok).strip() not in (info["text"], src_text) and str(tok).strip() not in src_text:
+                return "ExpressionError token %r, the reached invalid expression is %r" % (tok, info["text"])
+            lo, hi = info["offset"], info["offset"] + len(src_text)
+            if not (lo <= getattr(tok, "pos", -1) <= hi):
+                return "ExpressionError reports offset %s, the reached invalid expression %r stands at %d" % (
+                    getattr(tok, "pos", None), info["text"], lo)
         if info is not None:
             msg = str(err)
             recs = re.findall(r' - Expression: "(.*?)"\n - Filename:   (.*?)\n - Location:   \(line (\d+): col (\d+)\)', msg, re.S)
